@@ -196,6 +196,23 @@ CHECKS = {
         "not modelled). The decimal reader / writer of the model (ParseInt / FormatInt) is tested inside Coq on the int64 boundaries (a test), not proved inverse for all values.",
    technique="Coq proof (conversion table by case analysis; copy semantics on a heap model) + exhaustive grid differential",
    design="DESIGN.md section 6, C18"),
+ "C19": dict(
+   text="Coq: driver.go's QueryContext goroutine and Rows.Next / Close / context cancellation as a transition system with one atomic action per step (Model/Driver.v); [reach] is every "
+        "interleaving of the producer with ANY consumer program of Next / cancel / Close, for any native result (rows, final error). Proved for all of them: the consumer always holds a "
+        "prefix of the native rows in order (C19_prefix); EOF without a cancel means all rows were delivered and the scan ended cleanly - never a silently short result (C19_eof_complete); "
+        "an error Next reports is the scan's (C19_error_is_scans: the error is published before the channel closes); Close returns only after the producer is past the scan with the lock "
+        "released (C19_close_unlocked); every step decreases a measure so executions are finite (C19_finite), the producer cannot spin (C19_producer_bounded), a cancelled producer runs to "
+        "its exit (C19_cancelled_producer_exits), and an execution that saw a cancel or Close can only end with the producer exited, channel closed, lock dropped (C19_clean_end; no "
+        "deadlock otherwise: C19_terminal); '*' expansion (C19_star, C19_names). Every run: the driver's Statement/Rows are called directly with consumer programs (close or cancel after "
+        "every k, Next after cancel / Close, abandoned result sets, random programs) on rowid and WITHOUT ROWID tables, clean and with a damaged leaf, several delays each; the observation "
+        "(rows by native position, EOF/error, Close's result, producer parked/exited, lock seen by another process) must be one of the model's outcomes over all interleavings; then "
+        "goroutine, descriptor and lock leak checks. Through database/sql: rows equal DB.Select's, close/cancel at every k, rows.Err on damaged files, refused statements, one prepared "
+        "statement across schema changes made by SQLite.",
+   note="The native scan is a parameter of the model (that it returns the table's rows is C01, that it stops when told is C17); Go's channel, select, WaitGroup and context semantics are "
+        "written into the step relation (assumed, as documented by the Go memory model), database/sql's own goroutines are not modelled. The implementation's runs sample the interleavings "
+        "the Go scheduler produces; the theorems cover all of them.",
+   technique="Coq proof (invariants over all interleavings of a producer/consumer transition system; termination measure) + outcome-set conformance of the real driver against the extracted model",
+   design="DESIGN.md section 6, C19"),
 }
 
 NOT_YET = {}
